@@ -88,7 +88,9 @@ func processMongoLogStream(r io.Reader, outWriter io.Writer, bar *progressbar.Pr
 			addOneToBar(bar)
 			continue
 		}
-		fmt.Fprintln(outWriter, string(out))
+		if _, err := fmt.Fprintln(outWriter, string(out)); err != nil {
+			return err
+		}
 		// addOneToBar already handles the nil check for 'bar', so no need for an 'if' here.
 		addOneToBar(bar)
 	}
